@@ -139,6 +139,10 @@ func spollVariants(tier string) []vsched.Variant {
 	// a connection starts tracking a key: cold (nobody tracks it) and warm (another connection does)
 	add(mk(vk, "coldtrack", 1, ops("track:1:a:0", "pub:a:2"), c1b), 2, 1, 1)
 	add(mk(vk, "join", 2, ops("track:2:a:0", "pub:a:2"), c2sub), 2, 1, 1)
+	// a track whose authorization callback completes on another thread, overtaken by an unsubscribe
+	// and a resubscribe of the same channel on the same connection: the late track must not attach
+	// to the new subscription
+	add(mk(vk, "asynctrack-resub", 1, ops("track:1:a:0,unsub:1,sub:1", "pub:a:2"), c1b, func(c *spollCfg) { c.asyncTr = true }), 2, 2, 4)
 
 	// thorough only (bound 1): two connections / three threads, backend removal, asynchronous track
 	// callback, close, publishers of two epochs at once
